@@ -4,8 +4,8 @@ CONSTANTS
   MaxTrs = 3
   Kinds = {"audio", "video"}
   Dirs = {"sendrecv", "sendonly", "recvonly", "inactive"}
-  Ops = {"addTransceiver", "addTrack", "removeTrack", "stop", "createDC", "offerOnly", "negotiate", "setMid"}
+  Ops = {"addTransceiver", "addTrack", "removeTrack", "stop", "createDC", "offerOnly", "negotiate", "setMid", "presetMid"}
 INIT Init
-NEXT Next
+NEXT SimNext
 INVARIANT EmitPath
 CHECK_DEADLOCK FALSE
